@@ -9,6 +9,7 @@ from pyasn1.type import constraint, namedtype, univ
 from .. import core, tlc, codec_pipeline as P, codec_run as R
 from .. import universe as U
 from .c14 import build as build_constraint
+from . import compcons
 
 I = U.int_term
 
@@ -239,10 +240,14 @@ def run(ctx):
         for t in traces[:2]:
             e = next(x for x in t['ev'] if x['st'] == 'ok')
             ctx.sample({'type': t['name'], 'input': bytes(e['inp']).hex(), 'accepted value': e['v']})
+        # component-presence constraints (WITH COMPONENTS) and SIZE under intersection / union / exclusion: spec/CompCons.tla
+        compcons.part(ctx, sc, 'C10')
     ctx.rule = ('6 constrained types (value ranges, single values, SIZE of strings and of SEQUENCE OF/SET OF, OPTIONAL/DEFAULT, SET, '
                 'CHOICE, nesting); inputs = encodings (DER, CER, BER indefinite, BER chunked) of values of the unconstrained '
                 'neighbour type inside and just outside every constraint + random single mutations; every accepted input is '
-                'judged by WT of spec/WellTyped.tla, then re-encoded and re-decoded (fixpoint)')
+                'judged by WT of spec/WellTyped.tla, then re-encoded and re-decoded (fixpoint); plus every case of the generator machine '
+                'spec/CompCons.tla (WITH COMPONENTS PRESENT/ABSENT on SEQUENCE/SET, SIZE on SEQUENCE OF/SET OF, under and/or/not): a decoder '
+                'guided by the constrained type returns only for values inside the denotation, with the same shape, re-encodable')
 
 
 def _oversized(T, v):
